@@ -1,0 +1,131 @@
+/*
+ * Verification facade: the tokio client's websocket byte-stream adapter (the `TokioWsStream` the client reads from and
+ * writes to) over a scripted in-memory socket carrying server frames, and the websocket upgrade request built from the
+ * configured endpoint.
+ *
+ * `ws.aread frames=<kind><hex>,... calls=<buf>@<avail>,...`
+ *   frames: b<hex> binary message, t<hex> text message, p<hex> ping, c close, x<hex> raw bytes (e.g. a malformed
+ *           frame), e end of stream (the socket reports EOF once everything before it has been read)
+ *   calls:  one `poll_read` per entry with a buffer of <buf> bytes, after <avail> more bytes of the framed
+ *           stream have become readable on the socket
+ * -> `res=ok reads=ok:<hex>|pending|eof|err,...`   (`eof`: the read completed with zero bytes - what the `AsyncRead`
+ *    contract, and the client's connected loop, take for the end of the stream)
+ *
+ * `cfg.wsrequest endpoint=<hex>`
+ *   the upgrade request for `ws://<endpoint>/mqtt`, as `wrap_stream_with_websockets` builds it before the transport is opened
+ * -> `res=ok|err uriok=<0|1> host=<hex>|- hosthdr=<hex>|-`  (uriok/host: what the URI parser itself says about the string)
+ */
+
+use std::pin::Pin;
+use std::str::FromStr;
+use std::sync::{Arc, Mutex};
+use std::task::{Context, Poll};
+use tokio::io::{AsyncRead, AsyncWrite, ReadBuf};
+use tungstenite::client::IntoClientRequest;
+use super::text::*;
+
+struct AsyncScriptedSocket {
+    data: Arc<Mutex<(Vec<u8>, usize, usize)>>,   // (framed stream, read position, readable limit)
+    eof: bool,                                   // the stream ends with EOF rather than staying open
+}
+
+impl AsyncRead for AsyncScriptedSocket {
+    fn poll_read(self: Pin<&mut Self>, _cx: &mut Context<'_>, buf: &mut ReadBuf<'_>) -> Poll<std::io::Result<()>> {
+        let mut guard = self.data.lock().unwrap();
+        let (stream, position, limit) = &mut *guard;
+        if *position >= *limit {
+            if self.eof && *limit >= stream.len() {
+                return Poll::Ready(Ok(()));
+            }
+            return Poll::Pending;
+        }
+        let amount = usize::min(buf.remaining(), *limit - *position);
+        buf.put_slice(&stream[*position..*position + amount]);
+        *position += amount;
+        Poll::Ready(Ok(()))
+    }
+}
+
+impl AsyncWrite for AsyncScriptedSocket {
+    fn poll_write(self: Pin<&mut Self>, _cx: &mut Context<'_>, buf: &[u8]) -> Poll<std::io::Result<usize>> { Poll::Ready(Ok(buf.len())) }
+    fn poll_flush(self: Pin<&mut Self>, _cx: &mut Context<'_>) -> Poll<std::io::Result<()>> { Poll::Ready(Ok(())) }
+    fn poll_shutdown(self: Pin<&mut Self>, _cx: &mut Context<'_>) -> Poll<std::io::Result<()>> { Poll::Ready(Ok(())) }
+}
+
+fn frame(opcode: u8, payload: &[u8]) -> Vec<u8> {
+    let mut out = vec![0x80 | opcode];
+    if payload.len() < 126 {
+        out.push(payload.len() as u8);
+    } else if payload.len() < 65536 {
+        out.push(126);
+        out.extend_from_slice(&(payload.len() as u16).to_be_bytes());
+    } else {
+        out.push(127);
+        out.extend_from_slice(&(payload.len() as u64).to_be_bytes());
+    }
+    out.extend_from_slice(payload);
+    out
+}
+
+pub(crate) fn cmd_ws_aread(head: &str) -> Result<String, String> {
+    let (_, kv) = split_kv(head);
+    let mut stream = Vec::new();
+    let mut eof = false;
+    for spec in get(&kv, "frames").unwrap_or("").split(',').filter(|s| !s.is_empty()) {
+        let (kind, body) = spec.split_at(1);
+        let payload = if body.is_empty() { Vec::new() } else { unhex(body)? };
+        match kind {
+            "b" => stream.extend(frame(2, &payload)),
+            "t" => stream.extend(frame(1, &payload)),
+            "p" => stream.extend(frame(9, &payload)),
+            "c" => stream.extend(frame(8, &[])),
+            "x" => stream.extend(payload),
+            "e" => eof = true,
+            _ => return Err("bad frame kind".to_string()),
+        }
+    }
+    let shared = Arc::new(Mutex::new((stream, 0usize, 0usize)));
+    let runtime = tokio::runtime::Builder::new_current_thread().build().map_err(|e| e.to_string())?;
+    let socket = AsyncScriptedSocket { data: shared.clone(), eof };
+    let mut wrapper = Box::pin(runtime.block_on(crate::client::asynchronous::tokio::verif_wrap_tokio_websocket(socket)));
+    let waker = std::task::Waker::noop();
+    let mut cx = Context::from_waker(waker);
+    let mut outs = Vec::new();
+    for call in get(&kv, "calls").unwrap_or("").split(',').filter(|s| !s.is_empty()) {
+        let (buf_len, avail) = call.split_once('@').ok_or("bad call")?;
+        let buf_len: usize = buf_len.parse().map_err(|_| "bad call")?;
+        let avail: usize = avail.parse().map_err(|_| "bad call")?;
+        {
+            let mut guard = shared.lock().unwrap();
+            guard.2 = usize::min(guard.0.len(), guard.2 + avail);
+        }
+        let mut buf = vec![0u8; buf_len];
+        let mut read_buf = ReadBuf::new(&mut buf);
+        match wrapper.as_mut().poll_read(&mut cx, &mut read_buf) {
+            Poll::Ready(Ok(())) if read_buf.filled().is_empty() => outs.push("eof".to_string()),
+            Poll::Ready(Ok(())) => outs.push(format!("ok:{}", hex(read_buf.filled()))),
+            Poll::Ready(Err(_)) => outs.push("err".to_string()),
+            Poll::Pending => outs.push("pending".to_string()),
+        }
+    }
+    Ok(format!("res=ok reads={}", outs.join(",")))
+}
+
+pub(crate) fn cmd_cfg_wsrequest(head: &str) -> Result<String, String> {
+    let (_, kv) = split_kv(head);
+    let endpoint = String::from_utf8(unhex(get(&kv, "endpoint").unwrap_or(""))?).map_err(|_| "endpoint is not utf-8".to_string())?;
+    let uri = format!("ws://{}/mqtt", endpoint);
+    let parsed = http::Uri::from_str(uri.as_str());
+    let uriok = if parsed.is_ok() { 1 } else { 0 };
+    let host = parsed.ok().and_then(|u| u.host().map(|h| hex(h.as_bytes()))).unwrap_or("-".to_string());
+    let outcome = crate::client::config::create_default_websocket_handshake_request(uri)
+        .map_err(|_| ())
+        .and_then(|builder| crate::client::config::HandshakeRequest { handshake_builder: builder }.into_client_request().map_err(|_| ()));
+    match outcome {
+        Ok(request) => {
+            let header = request.headers().get("Host").map(|v| hex(v.as_bytes())).unwrap_or("-".to_string());
+            Ok(format!("res=ok uriok={} host={} hosthdr={}", uriok, host, header))
+        }
+        Err(()) => Ok(format!("res=err uriok={} host={} hosthdr=-", uriok, host)),
+    }
+}
